@@ -6,6 +6,9 @@ mod scen;
 use fw::*;
 use std::collections::HashSet;
 
+#[global_allocator]
+static GLOBAL: fw::TrapAlloc = fw::TrapAlloc;
+
 fn usage() -> ! {
     eprintln!("usage: cslmon run <Cxx> --tier quick|thorough --seed N --shard i/n --out FILE [--skip s:i,..] [--scale F] [--stream S --case I]\n       cslmon merge FILE...\n       cslmon list");
     std::process::exit(64)
